@@ -170,3 +170,99 @@ pub fn run_deep(e: &Engine, rec: &Recorder) {
     rec.add_counts(ran, ran, total_exec);
     rec.set_extra("depth_128_cases_run_in_child_processes", json!(ran));
 }
+
+
+/// C12 with the built-in error types: JsonError and QueryParamError are error
+/// types too, and their message rendering (did-you-mean, value quoting) runs
+/// inside `deserialize`. Every base payload of every catalogue type usable with
+/// them, with a long non-ASCII unknown key at every object and long / awkward
+/// strings at every string leaf, must return normally.
+pub fn run_builtin_totality(e: &Engine, rec: &Recorder) {
+    use crate::space::Gen;
+    use mc_desc::emit::ty_str;
+    let g = Gen::new(e.cat);
+    let mut long_strings: Vec<String> = vec![];
+    for len in [48usize, 64, 100, 128, 256] {
+        for pre in 0..4 {
+            for unit in ["é", "日", "😀"] {
+                let mut s = "x".repeat(pre);
+                while s.len() < len + 3 {
+                    s.push_str(unit);
+                }
+                long_strings.push(s);
+            }
+        }
+    }
+    long_strings.push(match Gen::awkward_string() {
+        Doc::Str(s) => s,
+        _ => unreachable!(),
+    });
+    let mut states = 0u64;
+    let mut execs = 0u64;
+    for (ri, root) in e.cat.roots.iter().enumerate() {
+        let entry = &e.entries[ri];
+        let (Some(rj), Some(rq)) = (entry.run_json, entry.run_query) else { continue };
+        let mut payloads: Vec<Doc> = vec![];
+        for b in g.bases(&root.ty).into_iter().take(4) {
+            // positions of objects and of string leaves
+            fn walk(d: &Doc, cur: &mut Loc, objs: &mut Vec<Loc>, strs: &mut Vec<Loc>) {
+                match d {
+                    Doc::Obj(m) => {
+                        objs.push(cur.clone());
+                        for (k, v) in m {
+                            cur.push(Step::Key(k.clone()));
+                            walk(v, cur, objs, strs);
+                            cur.pop();
+                        }
+                    }
+                    Doc::Seq(v) => {
+                        for (i, x) in v.iter().enumerate() {
+                            cur.push(Step::Index(i));
+                            walk(x, cur, objs, strs);
+                            cur.pop();
+                        }
+                    }
+                    Doc::Str(_) => strs.push(cur.clone()),
+                    _ => {}
+                }
+            }
+            let (mut objs, mut strs) = (vec![], vec![]);
+            walk(&b, &mut vec![], &mut objs, &mut strs);
+            for s in &long_strings {
+                for o in objs.iter().take(3) {
+                    let mut d = b.clone();
+                    if let Some(Doc::Obj(m)) = d.resolve_mut(o) {
+                        m.push((s.clone(), Doc::Int(1)));
+                    }
+                    payloads.push(d);
+                }
+                for l in strs.iter().take(3) {
+                    let mut d = b.clone();
+                    *d.resolve_mut(l).unwrap() = Doc::Str(s.clone());
+                    payloads.push(d);
+                }
+                if objs.is_empty() && strs.is_empty() {
+                    payloads.push(Doc::Str(s.clone()));
+                }
+            }
+            payloads.push(b);
+        }
+        for d in payloads {
+            states += 1;
+            for (name, run) in [("JsonError", rj), ("QueryParamError", rq)] {
+                execs += 1;
+                if std::panic::catch_unwind(|| run(&d)).is_err() {
+                    rec.violation(Violation {
+                        property: "C12".into(),
+                        subject: format!("{} with {name}", ty_str(&root.ty, e.cat)),
+                        message: format!("deserialize::<_, _, {name}> panicked\n  payload: {}", d.text()),
+                        replay: json!({"kind": "builtin-totality", "type": ty_str(&root.ty, e.cat), "error_type": name, "payload": crate::evidence::doc_to_tagged(&d)}),
+                    });
+                    break;
+                }
+            }
+        }
+    }
+    rec.add_counts(states, states, execs);
+    rec.set_extra("payloads_run_with_JsonError_and_QueryParamError_(long_non_ascii_keys_and_strings)", json!(states));
+}
